@@ -38,4 +38,68 @@ PhhWalk(log, j, blk) ==
        ELSE IF r.k \in {"SD", "BI", "F", "CC", "CBR", "SM"} THEN FlushBlock(blk) \o << PhhAct(r) >> \o PhhWalk(log, j + 1, EmptyBlock)
        ELSE PhhWalk(log, j + 1, blk)
 PhhActions(log) == PhhWalk(log, 1, EmptyBlock)
+(***************************************************************************)
+(* ACPC / Pluribus protocol.  The dealer's view of a hold'em hand, as seen *)
+(* from seat `seat` (0: every seat, the Pluribus form):                    *)
+(*   actions : one token per betting action - f, c, r (fixed-limit) or     *)
+(*             r<total chips the raiser has committed in the hand> (no-    *)
+(*             limit) - and a "/" per board dealing                        *)
+(*   holes   : per seat the hole cards the viewer knows: his own, and      *)
+(*             those tabled at a showdown                                  *)
+(*   boards  : the board cards, one group per dealing                      *)
+(* A state message (S) is sent before every betting action and at the end; *)
+(* a client message (C), carrying the state it answers and the action, is  *)
+(* sent after each of the viewer's own actions.                            *)
+(* Tokens: [k |-> "f" | "c" | "r" | "/", a |-> amount or -1].              *)
+(***************************************************************************)
+Tok(k, a) == [k |-> k, a |-> a]
+IsBet(r) == r.k \in {"F", "CC", "CBR"}
+KnownCard(c) == c \in 0..51
+\* cards dealt or tabled by one operation fill the slots of the seat from the first one (the engine's records of a show
+\* list the whole hand; a dealing of two cards lists both)
+PutCards(old, cards) == [i \in 1..2 |-> IF i <= Len(cards) /\ KnownCard(cards[i]) THEN <<cards[i]>> ELSE old[i]]
+\* cards dealt to a seat fill its empty slots in order, however the dealing was split over operations
+RECURSIVE DealCards(_, _)
+DealCards(old, cards) ==
+  IF cards = <<>> THEN old
+  ELSE LET free == {i \in 1..2 : old[i] = <<>>} IN
+       IF free = {} THEN old
+       ELSE DealCards([old EXCEPT ![Min(free)] = IF KnownCard(Head(cards)) THEN <<Head(cards)>> ELSE <<>>], Tail(cards))
+
+AcpcInit(n) ==
+  [acts |-> <<>>, holes |-> [i \in 1..n |-> << <<>>, <<>> >>], boards |-> <<>>,
+   com |-> [i \in 1..n |-> 0], bet |-> [i \in 1..n |-> 0], out |-> <<>>, lastBD |-> FALSE]
+Msg(X, dir, act) == [dir |-> dir, acts |-> X.acts, holes |-> X.holes, boards |-> X.boards, act |-> act]
+
+RECURSIVE AcpcStep(_, _, _, _)
+AcpcStep(X, r, seat, nolimit) ==
+  LET p == r.p
+      \* chips: what every player has put in so far (com) and has in front of him on this street (bet)
+      X1 == CASE r.k \in {"AP", "BP", "CC", "BI"} -> [X EXCEPT !.com[p] = @ + r.amt, !.bet[p] = @ + r.amt]
+              [] r.k = "CBR" -> [X EXCEPT !.com[p] = @ + (r.amt - X.bet[p]), !.bet[p] = r.amt]
+              [] r.k = "BC" -> [X EXCEPT !.com = [i \in DOMAIN @ |-> @[i] - (X.bet[i] - r.amts[i])], !.bet = [i \in DOMAIN @ |-> 0]]
+              [] OTHER -> X
+  IN IF r.k # "BD" /\ X.lastBD THEN AcpcStep([X EXCEPT !.lastBD = FALSE], r, seat, nolimit)
+     ELSE IF IsBet(r) THEN
+       LET tok == CASE r.k = "F" -> Tok("f", -1) [] r.k = "CC" -> Tok("c", -1)
+                    [] r.k = "CBR" -> Tok("r", IF nolimit THEN X1.com[p] ELSE -1)
+           before == Msg(X, "S", Tok("", -1))
+           mine == IF seat # 0 /\ p = seat THEN << Msg(X, "C", tok) >> ELSE <<>>
+       IN [X1 EXCEPT !.acts = Append(@, tok), !.out = (IF seat # 0 THEN Append(@, before) ELSE @) \o mine]
+     ELSE IF r.k = "HD" THEN (IF seat = 0 \/ p = seat THEN [X1 EXCEPT !.holes[p] = DealCards(@, r.cards)] ELSE X1)
+     ELSE IF r.k = "SM" THEN [X1 EXCEPT !.holes[p] = PutCards(@, r.cards)]
+     ELSE IF r.k = "BD" THEN
+          \* board cards dealt by consecutive operations are one dealing (one street): one separator, one group
+          IF X.lastBD THEN [X1 EXCEPT !.boards[Len(X.boards)] = @ \o r.cards]
+          ELSE [X1 EXCEPT !.acts = Append(@, Tok("/", -1)), !.boards = Append(@, r.cards), !.lastBD = TRUE]
+     ELSE X1
+
+RECURSIVE AcpcWalk(_, _, _, _, _)
+AcpcWalk(log, j, X, seat, nolimit) == IF j > Len(log) THEN X ELSE AcpcWalk(log, j + 1, AcpcStep(X, log[j], seat, nolimit), seat, nolimit)
+
+\* the messages of the ACPC form for a viewer, incl. the closing state message
+AcpcMessages(log, n, seat, nolimit) ==
+  LET X == AcpcWalk(log, 1, AcpcInit(n), seat, nolimit) IN Append(X.out, Msg(X, "S", Tok("", -1)))
+\* the Pluribus form: one line for the whole hand, every seat's cards
+PluribusState(log, n) == LET X == AcpcWalk(log, 1, AcpcInit(n), 0, TRUE) IN [acts |-> X.acts, holes |-> X.holes, boards |-> X.boards]
 =============================================================================
